@@ -99,7 +99,7 @@ func (c *collection) updateWithFilter(
 	for {
 		next, nextErr := selectionPlan.Next()
 		if nextErr != nil {
-			return nil, err
+			return nil, nextErr
 		}
 		// if theres no more records from the request, jump out of the loop
 		if !next {
